@@ -1,10 +1,10 @@
 package checks
 
 import (
-	"sync"
 	"fmt"
 	"sort"
 	"strings"
+	"sync"
 
 	"github.com/mit-pdos/go-journal/addr"
 	"github.com/mit-pdos/go-journal/common"
